@@ -45,8 +45,9 @@ CLAIMS = {
                   "in stdout / status / diagnostic is a violation with the shrunk program as replay.",
              ref="§6 C01", technique="Lean 4 executable semantics + fuel-independence/sequencing theorems + whole-run differential correspondence"),
  "C19": dict(text="Lean decide-theorems over tables regenerated from the source (the only hash-ordered iteration is collected into a "
-                  "BTreeMap; the only environment/file-system uses are args, current_dir, read_to_string, exit), rendering theorems on the "
-                  "model; tie + Python depth-passing pretty-printer on nested values built along three construction histories; "
+                  "BTreeMap; the only environment/file-system uses are args, current_dir, read_to_string, exit); `render_eq_spec`: the model's printer equals "
+                  "the depth-passing pretty-printer specification for every value and nesting, equal values print the same, keys ascending; "
+                  "tie + Python depth-passing pretty-printer on nested values built along three construction histories; "
                   "determinism of the binary (which no model can exhibit) is tested by repeated CLI runs under varied cwd, locale, "
                   "environment, path spelling, stdin and stdout kinds — partial by nature for that part.",
              ref="§6 C19", technique="Lean 4 theorems on render model + decide-theorems over extracted tables + repeated-run determinism oracle"),
@@ -65,13 +66,14 @@ CLAIMS.update({
  "C03": dict(text="Lean theorems: the lexer always makes progress and its fuel is always enough; the parser's fuel is always enough "
                   "(`parse_total`, potential-function argument over all 22 parser functions): the front end decides every input; every "
                   "reported line lies in 1..1+#newlines. Tie: token- and tree-level correspondence, exhaustive over all strings of length "
-                  "≤3/≤4 over a 30-character alphabet plus truncations/mutations/Unicode; CLI oracle: one `<path>:<l>:<c>: msg` "
+                  "≤3/≤4 over a 34-character alphabet (incl. non-ASCII numerics and spaces) plus truncations/mutations/Unicode; CLI oracle: one `<path>:<l>:<c>: msg` "
                   "diagnostic, status 103, empty stdout, line bound, read error for invalid UTF-8.",
              ref="§6 C03", technique="Lean 4 totality/progress theorems on lexer and parser models + exhaustive short-input tok/ast correspondence + CLI format oracle"),
  "C04": dict(text="Lean theorems on scope lookup/assign/declare (innermost wins, nearest is updated, only the top scope is declared in, "
                   "shadowing frame), fresh scope per block/branch/iteration/call, closures store the defining chain itself, `evalCall` "
-                  "factors through a `callValue` that does not take the caller's chain; alpha-equivariance proved for the scope primitives "
-                  "and the binder (`…_partial`; the lift through the evaluator is open). Tie + two model-free oracles: an independent Python "
+                  "factors through a `callValue` that does not take the caller's chain; `alpha_equivariance`: for an injective renaming π "
+                  "that fixes `_`, `this`, `print`, fn-statement names, shorthand names and slot expressions, `evalProg n (π•prog) = π•evalProg n prog` "
+                  "(induction over all 23 evaluator functions), hence same output and status. Tie + two model-free oracles: an independent Python "
                   "lexical-scoping interpreter and renaming metamorphism, exhaustive over scope-operation programs to 6/7 tokens.",
              ref="§6 C04", technique="Lean 4 frame theorems on scope primitives and call factoring + exhaustive scope-program correspondence + renaming metamorphism"),
  "C05": dict(text="Lean frame theorems: alias sites keep the address, updates change exactly one cell, builders allocate fresh cells that "
@@ -92,8 +94,10 @@ CLAIMS.update({
              ref="§6 C08", technique="Lean 4 parser/printer round-trip and grouping theorems + decide-theorems over the extracted tier table + tree-level correspondence"),
  "C09": dict(text="Lean theorems: the continuation-token set extracted from the lexer is the documented one (`decide`), `suppress` is "
                   "characterised pointwise and is invariant under inserting terminators after a terminator/continuation token or at the start, "
-                  "a break after an ineligible token does split, `;` and newline are the same token; the lexer-level whitespace/comment "
-                  "theorems (`skipWs_spec`, `lex_render`) are not proved. Tie at token level (positions erased) and run level; oracle: layout "
+                  "a break after an ineligible token does split, `;` and newline are the same token; lexer level: tokens do not depend "
+                  "on the position the scan starts from, `skipWs_spec`, inserting blanks/comments at any token boundary leaves the token kinds "
+                  "unchanged (`layout_invariance_at_boundary`), a newline at a boundary is a `;` (`newline_is_semicolon_at_boundary`), `_` in "
+                  "integer literals; a full lexer inverse (`lex_render`) is not attempted. Tie at token level (positions erased) and run level; oracle: layout "
                   "metamorphism on the implementation (same tokens, same output, diagnostics at the mapped position).",
              ref="§6 C09", technique="Lean 4 theorems on terminator suppression + decide-theorems over extracted tables + layout-metamorphism correspondence"),
  "C10": dict(text="Lean theorems: `==` on acyclic values equals equality of their tree unfoldings (so aliasing, construction and insertion "
@@ -117,12 +121,13 @@ CLAIMS.update({
                   "reads set the source object, variable/argument/list/return moves keep it, operators and literals drop it, `this` is bound iff "
                   "the callee value has a source. Tie + generator-planted expected `this` over access-path histories.",
              ref="§6 C14", technique="Lean 4 provenance and parameter-frame theorems + access-path history correspondence + planted-tag oracle"),
- "C15": dict(text="Lean theorems are one-step facts of the string-literal state machine (escapes, hex, invalid escape/hex, lone `$`, bad slot "
-                  "start, each located at the character) and whole-literal `decide` examples; the general `str_roundtrip` / `slots_exact` / "
-                  "`interpolate_concat` theorems are not proved yet, so the universal part rests on the tie: token and run correspondence, "
+ "C15": dict(text="Lean theorems: `str_roundtrip` (lexing the escaped rendering of any byte/character sequence gives it back), `slots_exact` "
+                  "(pieces and balanced slots are recovered in order), `interpolate_concat` (the value is the concatenation of pieces and slot "
+                  "values, slots evaluated left to right), `utf8_roundtrip`, length in bytes, one-step facts for every malformed form located at the "
+                  "character. Tie: token and run correspondence, "
                   "exhaustive over strings ≤2/≤3 (+ all of length 4) over an alphabet with escapes, 2/3/4-byte characters, braces and `$`, all "
                   "arrangements of 0..3 slots, malformed literals at every position; Python decode/concat oracle.",
-             ref="§6 C15", technique="Lean 4 step theorems on the literal lexer model + exhaustive short-literal correspondence + Python decode/concat oracle"),
+             ref="§6 C15", technique="Lean 4 round-trip/interpolation theorems on the literal lexer and evaluator models + exhaustive short-literal correspondence + Python decode/concat oracle"),
  "C16": dict(text="Lean theorems: `applyBinOp` succeeds only on the documented operand kinds (`binop_domain`), rejects every other pair with "
                   "InvalidOpTypes naming operator and both kinds in order, results have the kind determined by the operator (no coercion), the two "
                   "type-name tables extracted from the source agree and are the documented names, `->type()` total except null, every typed "
@@ -131,14 +136,16 @@ CLAIMS.update({
              ref="§6 C16", technique="Lean 4 case-analysis theorems over operator×kind matrix + decide-theorems over extracted type-name tables + exhaustive matrix correspondence"),
  "C18": dict(text="Lean theorems: the scanner's position after k characters is `posOf src k` (lines from 1, columns count characters, a "
                   "newline is column 0 of the next line), every token start and every lexical-error position is `posOf` of the offending "
-                  "character, positions depend only on the preceding text (`pos_shift`), tab and multi-byte count one; `node_pos` (every "
-                  "stored AST position is a token start) is checked by the tie, not proved. Tie at token/tree level with positions; oracle: "
+                  "character, positions depend only on the preceding text (`pos_shift`), tab and multi-byte count one; `node_pos`: every "
+                  "position stored in a parsed tree is the start of a token of the input (all 22 parser functions), `node_pos_src`: hence "
+                  "`posOf` of a character of the source; which stored position each diagnostic uses is checked by the tie. Tie at token/tree level with positions; oracle: "
                   "planted offending tokens under layout rewrites with a 5-line Python reference. Known findings K2, K4.",
              ref="§6 C18", technique="Lean 4 position theorems on scanner/lexer models + positioned tok/ast correspondence + planted-token oracle"),
  "C20": dict(text="Lean theorems: reading/assigning/op-assigning an undeclared name is `Undefined` at that name, declaring twice in one scope "
                   "is `AlreadyInScope` citing the earlier position and leaves the state unchanged, inner-scope redeclaration is allowed, all "
                   "entry points reach `declare` on the top scope, `_` is a no-op for every bind mode and is never readable given no scope holds "
-                  "it (`underscore_never_partial`: the invariant's lift through the evaluator is open), non-bindable targets are rejected. "
+                  "it, and `underscore_never`: no reachable state has a scope holding `_` (global invariant over all 23 evaluator functions); "
+                  "non-bindable targets are rejected. "
                   "Tie + Python scope machine over event sequences and every non-bindable kind × binding position.",
              ref="§6 C20", technique="Lean 4 theorems on declare/assign/read and `_` + exhaustive event-sequence correspondence + Python scope-machine oracle"),
 })
